@@ -46,6 +46,14 @@ func histJobs(prop string) func(tier string, seed int) []JobDef {
 		for _, d := range hist.Registry(prop, tier) {
 			out = append(out, JobDef{Name: d.Name, Args: []string{"job", "-prop", prop, "-tier", tier, "-universe", d.Name}})
 		}
+		// C02 also runs the node16 windows and the word-size dependent key types on the GOARCH=386 build
+		if bin := os.Getenv("VERIF_BIN_386"); bin != "" && prop == "C02" {
+			for _, d := range hist.Registry(prop, tier) {
+				if strings.Contains(d.Name, "FAN16@15") || strings.Contains(d.Name, "FAN48@14") || strings.HasPrefix(d.Name, "unsigned[uint]/") || strings.HasPrefix(d.Name, "signed[int]/") {
+					out = append(out, JobDef{Name: d.Name + "@386", Bin: bin, Args: []string{"job", "-prop", prop, "-tier", tier, "-universe", d.Name}})
+				}
+			}
+		}
 		return out
 	}
 }
